@@ -136,7 +136,7 @@ def wire(index, rep, flow):
             rnd = [k.value.value for k in c.keywords if k.arg == "round" and isinstance(k.value, ast.Constant)]
             rnd = rnd[0] if rnd else None
             org = flow.origin(ras, c.args[0], before=c.lineno)
-            res = inl_ras.src(c.args[1]) if len(c.args) > 1 else "?"
+            res = inl_ras.at(c).src(c.args[1]) if len(c.args) > 1 else "?"   # the definition reaching this call
             seen.setdefault(c.func.attr, {})[rnd] = (org, res, c)
             rep.check(org == {want[c.func.attr]}, rule, f"{c.func.attr}[round {rnd}]:demand-provenance",
                       f"the demand passed to the validator originates from {sorted(org)}, expected {want[c.func.attr]} "
@@ -297,11 +297,12 @@ def pin(index, rep, flow):
     rep.check(okc, rule, "round2:uses-round2-constants",
               f"round 2 is not solved with (constants, monthly constants) returned by compute_parameters_second_round: {[a[:70] for a in args]}", loc=loc(RUN, call[0]))
     ro = index.func(RUN, "ScenarioRunner.run_optimizer")
-    c2 = [c for c in walk_no_nested(ro) if isinstance(c, ast.Call) and isinstance(c.func, ast.Attribute) and c.func.attr == "optimize_feed_to_animals"]
+    from .core import find_call as _fc
+    fc2 = _fc(index.methods(RUN, "ScenarioRunner"), ro, "optimize_feed_to_animals")   # in run_optimizer, or in a dispatch helper it calls
     RP = [a.arg for a in ro.args.args]
     hand = [p_ for p_ in RP if "min_human" in p_ or "human_food" in p_]
-    ok = len(c2) == 1 and len(hand) == 1 and [norm_src(a) for a in c2[0].args] == [RP[1], RP[2], hand[0]] and \
-        Inliner(ro).src(c2[0].func.value) == f"Optimizer({RP[1]}, {RP[2]})"
+    ok = fc2 is not None and len(hand) == 1 and [fc2[2].src(a) for a in fc2[1].args] == [RP[1], RP[2], hand[0]] and \
+        fc2[2].src(fc2[1].func.value) == f"Optimizer({RP[1]}, {RP[2]})"
     rep.check(ok, rule, "run_optimizer:passes-hand-off", "run_optimizer does not pass the hand-off to optimize_feed_to_animals", loc=loc(RUN, ro))
     of = index.func(OPT, "Optimizer.optimize_feed_to_animals")
     st = [s for s in of.body if isinstance(s, ast.Assign) and norm_src(s.targets[0]) == "self.time_consts['min_human_food_consumption']"]
@@ -402,21 +403,31 @@ def r3(index, rep, flow):
     rr3 = index.func(RUN, "ScenarioRunner.run_round_3")
     c3 = [x for x in walk_no_nested(rr3) if isinstance(x, ast.Call) and isinstance(x.func, ast.Attribute) and x.func.attr == "compute_parameters_third_round"]
     p3 = [a.arg for a in fn.args.args][1:]
-    ok = len(c3) == 1 and len(c3[0].args) == len(p3)
+    from .core import bind_args as _bind
+    b3 = _bind(c3[0], fn) if len(c3) == 1 else {}
+    ok = len(c3) == 1 and set(b3) == set(p3)
     if ok:
-        a3 = [norm_src(a) for a in c3[0].args]
-        ok = a3[p3.index("feed_demand")] == "feed_demand" and a3[p3.index("biofuels_demand")] == "biofuels_demand" and \
-            a3[p3.index("interpreted_results_round2")] == "interpreted_results_round2" and a3[p3.index("time_consts_round2")] == "time_consts_round2"
+        # every (demand / round-k) parameter of the third round receives run_round_3's parameter of the same role
+        rp3 = {a.arg for a in rr3.args.args}
+        for p_ in p3:
+            if role_of(p_, ("feed", "biofuel")) and "demand" in p_ or role_of(p_, ("round1", "round2", "round3")):
+                a_ = norm_src(b3[p_])
+                ok = ok and a_ in rp3
+                for fam in (("feed", "biofuel"), ("round1", "round2", "round3")):
+                    if role_of(p_, fam):
+                        ok = ok and role_of(a_, fam) == role_of(p_, fam)
+                if "demand" in p_:
+                    ok = ok and "demand" in a_
     rep.check(ok, rule, "run_round_3 -> third round: positional binding", "run_round_3 does not pass demands/results to the parameters of the same role",
               loc=loc(RUN, rr3))
     ras = index.func(RUN, "ScenarioRunner.run_and_analyze_scenario")
     cr = [x for x in walk_no_nested(ras) if isinstance(x, ast.Call) and dotted(x.func) == "self.run_round_3"]
     pr = [a.arg for a in rr3.args.args][1:]
-    ok = len(cr) == 1 and len(cr[0].args) >= len(pr) - 1
+    br = _bind(cr[0], rr3) if len(cr) == 1 else {}
+    ok = len(cr) == 1 and "feed_demand" in br and "biofuels_demand" in br
     if ok:
-        i_f, i_b = pr.index("feed_demand"), pr.index("biofuels_demand")
-        of_ = flow.origin(ras, cr[0].args[i_f], before=cr[0].lineno)
-        ob_ = flow.origin(ras, cr[0].args[i_b], before=cr[0].lineno)
+        of_ = flow.origin(ras, br["feed_demand"], before=cr[0].lineno)
+        ob_ = flow.origin(ras, br["biofuels_demand"], before=cr[0].lineno)
         ok = of_ == {"src:get_feed_usage"} and ob_ == {"src:get_biofuel_usage"}
     rep.check(ok, rule, "run_and_analyze -> run_round_3: demand slots", "the demands reaching round 3 are crossed or not the demand schedules", loc=loc(RUN, ras))
     # what round 3 charges
